@@ -68,6 +68,7 @@ fn run_worker(args: &[String]) -> i32 {
     let nshards: u32 = arg_value(args, "--of").unwrap().parse().unwrap();
     let out = arg_value(args, "--out").unwrap();
     engine::watchdog::install(format!("{}.hang", out));
+    engine::SHARD.store(shard, std::sync::atomic::Ordering::SeqCst);
     let mut ctx = Ctx {
         prop: def.id,
         tier,
